@@ -162,18 +162,14 @@ Example C17_options_nonvacuous :
   convert Mputil.join Mputil.ring_of (set_noID true o0) d_rich <> convert Mputil.join Mputil.ring_of o0 d_rich.
 Proof. split; [vm_compute; reflexivity|]. vm_compute. discriminate. Qed.
 
-(* IncludeInvalidPolygons only adds to / extends relation features.
-   FULL STATEMENT (wanted): additionally every ring of the geometry without the option is still
-   present with it (Spec.rings_sub); that part is checked by judgement 2 of the correspondence
-   run on every case (Spec.extends) but not proved: with the option, an inner ring may be
-   claimed by an invalid outer ring that precedes the valid one that held it before, so only
-   ring conservation — not "each polygon keeps its holes" — can hold, and its proof needs the
-   multiset bookkeeping of addToMultiPolygon, which is not done.
-   Proved (_partial): the skippable set, the way pass and the node pass are identical; a
-   relation that is not a multipolygon/boundary gives the identical result; every relation
-   feature present without the option is present with it, equal up to geometry, and a changed
-   geometry is again a (multi)polygon. *)
-Theorem C17_option_IncludeInvalidPolygons_partial : forall join ring_of o d,
+(* IncludeInvalidPolygons only adds to / extends relation features: the skippable set, the way
+   pass and the node pass are identical; a relation that is not a multipolygon/boundary gives
+   the identical result; every relation feature present without the option is present with it,
+   equal in everything but the geometry, and every ring of the old geometry (outer or inner,
+   with multiplicity) is still present in the new one.  (Not claimed, and false of the code:
+   that each polygon keeps its own holes — with the option an earlier invalid outer ring may
+   claim an inner ring that a later valid one held.) *)
+Theorem C17_option_IncludeInvalidPolygons : forall join ring_of o d,
   skippable join ring_of (set_incl true o) d = skippable join ring_of (set_incl false o) d /\
   way_features join ring_of (set_incl true o) d = way_features join ring_of (set_incl false o) d /\
   node_features (set_incl true o) d = node_features (set_incl false o) d /\
@@ -182,9 +178,18 @@ Theorem C17_option_IncludeInvalidPolygons_partial : forall join ring_of o d,
      rel_result join ring_of (set_incl true o) d r = rel_result join ring_of (set_incl false o) d r) /\
     (forall f, snd (rel_result join ring_of (set_incl false o) d r) = Some f ->
        exists g, snd (rel_result join ring_of (set_incl true o) d r) = Some (with_geom f g) /\
-                 (g = f_geom f \/ (is_mp_geom g = true /\ is_mp_geom (f_geom f) = true))).
-Proof. exact option_IncludeInvalidPolygons_partial. Qed.
-Print Assumptions C17_option_IncludeInvalidPolygons_partial.
+                 rings_sub (geom_rings (f_geom f)) (geom_rings g) = true).
+Proof. exact option_IncludeInvalidPolygons. Qed.
+Print Assumptions C17_option_IncludeInvalidPolygons.
+
+Example C17_include_invalid_nonvacuous :
+  (* corpus scene: an inner ring without any outer yields a feature only with the option *)
+  let d := {| nodes := nodes d_shared; ways := ways d_shared;
+              relations := [ {| r_id := 1; r_members := [mw 11 "inner"];
+                                r_tags := [("type", "multipolygon")]%string; r_meta := meta0 |} ] |} in
+  rel_features Mputil.join Mputil.ring_of o0 d = [] /\
+  List.length (rel_features Mputil.join Mputil.ring_of (set_incl true o0) d) = 1%nat.
+Proof. vm_compute. split; reflexivity. Qed.
 
 (* ---------------------------------------------------------------------------------------
    6. Determinism: the conversion is a function of options and data (the implementation's
